@@ -179,6 +179,10 @@ func init() {
 	harnessPrims["vClockNsec"] = func(r *Run, _ *frame, _ *ssa.Function, args []Value) Value {
 		return r.B.ZExt(r.clockLog[cint(args[0])][1], 64)
 	}
+	harnessPrims["vMapOrder"] = func(r *Run, _ *frame, _ *ssa.Function, args []Value) Value {
+		r.reverseMaps = r.asInt(args[0]).IsTrue()
+		return nil
+	}
 	harnessPrims["vSymbolic"] = func(r *Run, _ *frame, _ *ssa.Function, args []Value) Value {
 		return smt.True
 	}
